@@ -105,7 +105,8 @@ namespace occa {
     const udim_t alignedBytes = ((bytes + alignment - 1) / alignment) * alignment;
 
     /*If pool is too small, resize and put the new reservation at the end*/
-    if (reserved + bytes > size) {
+    // A reservation occupies whole alignment cells: test the fit with its aligned footprint
+    if (reserved + alignedBytes > size) {
       resize(reserved + alignedBytes);
       return slice(reserved, bytes);
     }
@@ -121,12 +122,12 @@ namespace occa {
       const dim_t mlo = m->offset;
       const dim_t mhi = ((m->offset + m->size + alignment - 1)
                         / alignment) * alignment; //Round up upper limit
-      if (mlo >= static_cast<dim_t>(offset + bytes)) break; /*Found a suitable empty space*/
+      if (mlo >= static_cast<dim_t>(offset + alignedBytes)) break; /*Found a suitable empty space*/
 
       offset = std::max(offset, mhi); /*Shift the potential region*/
     }
 
-    if (offset + bytes <= size) {
+    if (offset + alignedBytes <= size) {
       return slice(offset, bytes);
     } else {
       resize(reserved + alignedBytes);
